@@ -14,6 +14,7 @@ var Registry = map[string]func() *vlib.Plan{
 	"C08": C08Plan,
 	"C09": C09Plan,
 	"C10": C10Plan,
+	"C11": C11Plan,
 	"C12": C12Plan,
 	"C14": C14Plan,
 	"C15": C15Plan,
